@@ -7,8 +7,9 @@
    derivation of the input (layer A: [C20_forest_complete_full_statement]); that is compared on
    every run against a brute-force enumeration of the derivations of the compiled grammar. *)
 From Coq Require Import ZArith List Bool String.
+From Coq Require Import Permutation.
 From LV Require Import Base.Prelude Forest.Sppf Forest.Prio Forest.Prio_proofs Forest.Tft Forest.Tft_proofs
-  Forest.Visit Forest.Visit_proofs.
+  Forest.Tft_perm_proofs Forest.Visit Forest.Visit_proofs.
 Import ListNotations.
 
 (* Expanding the `_ambig` nodes of TreeForestTransformer(resolve_ambiguity=False).transform
@@ -18,6 +19,13 @@ Theorem C20_tft_unshaped_exact s t :
   forall u, In u (expand t) <-> In u (map unshape (root_derivs s)).
 Proof. exact (tft_unshaped_exact s t). Qed.
 Print Assumptions C20_tft_unshaped_exact.
+
+(* ... each exactly as often as the forest denotes it: the expansion is a permutation of the
+   derivation list (no loss, no duplication) *)
+Theorem C20_tft_unshaped_perm s t :
+  wfb s = true -> tft s = Some t -> Permutation (expand t) (map unshape (root_derivs s)).
+Proof. exact (tft_unshaped_perm s t). Qed.
+Print Assumptions C20_tft_unshaped_perm.
 
 (* resolve_ambiguity=True yields one of them *)
 Theorem C20_tft_resolve_in s :
